@@ -17,6 +17,7 @@ type StreamSpec struct {
 	Gen        func(g *Gen, i int) (in any, note string)
 	Impl       func(in any) any
 	ImplBatch  func(ins []any) []any // when set, used instead of Impl for the whole run (child processes)
+	DriverIn   func(c *Case) any     // when set, what is sent to the Lean driver (computed after the implementation ran)
 	Compare    func(c *Case, out any) []Finding
 	Nontrivial func(c *Case) bool
 	Rule       string
@@ -30,13 +31,25 @@ func (s *StreamSpec) register() *StreamSpec {
 		} else {
 			c.Impl = s.Impl(c.In)
 		}
-		out, err := runDriver([]*Case{c})
+		out, err := runDriver(s.driverCases([]*Case{c}))
 		if err != nil {
 			return []Finding{{Kind: "obligation", Stream: s.Name, Detail: err.Error()}}
 		}
 		return s.Compare(c, out[c.ID])
 	}
 	return s
+}
+
+// driverCases: the lines sent to the Lean driver.
+func (s *StreamSpec) driverCases(cases []*Case) []*Case {
+	if s.DriverIn == nil {
+		return cases
+	}
+	out := make([]*Case, 0, len(cases))
+	for _, c := range cases {
+		out = append(out, &Case{ID: c.ID, Op: c.Op, In: s.DriverIn(c)})
+	}
+	return out
 }
 
 func (s *StreamSpec) Run(ctx *Ctx) StreamResult {
@@ -78,7 +91,7 @@ func (s *StreamSpec) Run(ctx *Ctx) StreamResult {
 		mergeFeat(res.Features, c.Feat)
 		res.Features["impl:"+outcomeTag(c.Impl)]++
 	}
-	outs, err := runDriver(cases)
+	outs, err := runDriver(s.driverCases(cases))
 	if err != nil {
 		res.Findings = append(res.Findings, Finding{Kind: "obligation", Stream: s.Name, Detail: "driver failed: " + err.Error(), Signature: "driver-failed"})
 	}
